@@ -7,7 +7,7 @@ ID = "C06"
 LEVEL = "exploration"
 RULE = (
     "seeded Tasklang programs dense in with-blocks (AsyncContext subclasses, scoped-value and attribute overrides; "
-    "nesting <= 4; blocks spanning 0-5 yields; several concurrently pending tasks; blocks left normally, by exceptions "
+    "nesting <= 4; blocks spanning 0-5 yields; in 12% of the blocks two more logging contexts with NON-lexical lifetimes - entered A then G, left A then G, statements in between; several concurrently pending tasks; blocks left normally, by exceptions "
     "thrown into or raised inside them, and by early return/result()); profile A adds sync re-entry and shared tasks, "
     "profile N (yield-only, no shared tasks) adds NonAsyncContext blocks; in one program of six some contexts' own resume()/pause() raise on the 1st (= on entry: the block is then never entered and the context must never be called again), 2nd or 3rd call (the oracles then apply to all OTHER contexts, without the reference), half of them from a structured family: a synchronously called subtree whose context fails on re-activation after a flush, handled by the caller, which then opens contexts of its own and blocks in them. All get_priority() policies, both builds. "
     "In-run oracles: per context strict resume/pause alternation from entry (resumed) to exit (paused); at every task "
@@ -24,6 +24,7 @@ ASSUMPTIONS = [
 UNIT_TIMEOUT = {"quick": 150, "thorough": 2400}
 
 COMMON = dict(
+    p_nonlifo=0.12,
     p_equal_values=0.15,
     p_item_fault=0.05,
     p_wrap=0.6,
@@ -180,12 +181,20 @@ def run_unit(unit, progress):
         except lang.HarnessFault:
             inc("ref_budget_skips")
             continue
+        nonlex = any(st[0] == "ctxopen" for node in prog["nodes"] for st in lang.iter_stmts(node["body"]))
+        if nonlex:
+            inc("programs_with_non_lexical_context_lifetimes")
         pols = tl.policies(prog, rnd, unit.get("nsched", 3), exhaustive_perms=unit["tier"] == "thorough")
         bad = False
         multi = False
         for pi, pol in enumerate(pols):
             how = HOWS[(i + pi) % 4]
-            rt, out, exp, rrt = tl.execute(prog, how, pol, cs, MON_F if faulty else MON_A, rrt_exp=exp_rrt)
+            mons = MON_F if faulty else MON_A
+            if nonlex:
+                # the program itself leaves its contexts in another order than it entered them: the
+                # "whatever was resumed last is paused first" reading (C07) does not apply to it
+                mons = tuple(m for m in mons if m != "nesting")
+            rt, out, exp, rrt = tl.execute(prog, how, pol, cs, mons, rrt_exp=exp_rrt)
             if faulty:
                 inc("runs_with_failing_context_callbacks")
                 if any(ev[0] == "ctx_fault" for ev in rt.log):
@@ -228,7 +237,7 @@ def run_unit(unit, progress):
 
 def reach(c, tier):
     out = []
-    for k in ("contexts_with_2plus_resume_pause_pairs", "n_ctx_must_be_paused", "n_ctx_exclusive", "n_na_aborts", "n_na_flush_checks", "blocks_left_by_exception", "blocks_left_by_GeneratorExit"):
+    for k in ("contexts_with_2plus_resume_pause_pairs", "n_ctx_must_be_paused", "n_ctx_exclusive", "n_na_aborts", "n_na_flush_checks", "blocks_left_by_exception", "blocks_left_by_GeneratorExit", "programs_with_non_lexical_context_lifetimes"):
         if not c.get(k):
             out.append("%s is zero" % k)
     return out
